@@ -499,3 +499,8 @@ func init() {
 	addMutant(Mutant{Name: "c09-lookup-compared-before-ok", Property: "C09", File: "util/gnmi.go",
 		Old: "\t\tcase ok && aVal == bVal, aVal == \"*\" && !ok:", New: "\t\tcase aVal == bVal, aVal == \"*\" && !ok:", Expect: "comparePathElem:key-lookup"})
 }
+
+func init() {
+	addMutant(Mutant{Name: "c13-create-entry-on-empty-result", Property: "C13", File: "ytypes/node.go",
+		Old: "\tif len(matches) == 0 && !matchedEntry && args.modifyRoot {\n\t\tkey, err := insertAndGetKey(", New: "\tif len(matches) == 0 && args.modifyRoot {\n\t\tkey, err := insertAndGetKey(", Expect: "retrieveNodeList:create#1"})
+}
